@@ -7,11 +7,14 @@ from ..lin import Form, Lin
 from ..pathcond import implied
 
 MANIFEST = {
-    'technique': 'quantity-kind (T/P) typing of every value stored into the thermal condition, plus a must-store rule for the specified quantities on every normal path (interprocedural through the single-component helpers); exhaustiveness of the VLE.__call__ dispatch',
-    'text': 'Decides for every input the specification-plumbing clause only: on every normal return of each set_XY/_set_XY_chemical the specified '
-            'T (resp. P) is what the thermal condition holds, every value stored into T is temperature-kinded and into P pressure-kinded, '
-            'VLE.__call__ passes each specification to the parameter of the same kind and its dispatch over specification pairs is exhaustive. '
-            'Residuals of V/H/S specifications, iso-fugacity, Rachford-Rice agreement and scaling are numerical and not decided.',
+    'technique': 'quantity-kind (T/P) typing of every value stored into the thermal condition, plus a must-store rule for the specified quantities on every normal path '
+            '(interprocedural through the single-component helpers); exhaustiveness of the VLE.__call__ dispatch; taint + must-pass rule for flow-derived per-call '
+            'state in VLE._setup',
+    'text': 'Decides for every input the specification-plumbing clause only: on every normal return of each set_XY/_set_XY_chemical the specified T (resp. P) is '
+            'what the thermal condition holds, every value stored into T is temperature-kinded and into P pressure-kinded, VLE.__call__ passes each specification '
+            'to the parameter of the same kind and its dispatch over specification pairs is exhaustive; every field that VLE._setup computes from the amounts of '
+            'this call (totals and compositions the V/H/S residuals divide by) is stored on every normal path, never only when the set of non-zero chemicals '
+            'changed. Residuals of V/H/S specifications, iso-fugacity, Rachford-Rice agreement and scaling are numerical and not decided.',
 }
 
 VLEF = 'thermosteam/equilibrium/vle.py'
@@ -168,6 +171,74 @@ def run(ctx):
     dispatch(ctx, d2, vle)
     d3 = ctx.rule('D2', 'solver components are built on the stream\'s own property package', floor=2)
     thermo_propagation(ctx, d3, vle)
+    d4 = ctx.rule('D3', 'per-call state derived from the flows is refreshed on every call', floor=8)
+    per_call_state(ctx, d4, vle)
+
+
+SUPPORT_ONLY = {'nonzero_keys', 'any', 'nonzero', 'keys', 'nonzero_index', 'has_data'}
+
+
+def per_call_state(ctx, rule, vle):
+    """VLE._setup copies this call's flows into fields that the residual functions read (totals, compositions).  A field
+    whose value is computed from the AMOUNTS must be stored on every normal path: stored only on some (e.g. only when
+    the set of non-zero chemicals changed), the other paths solve against the previous call's flows.  Values that
+    depend only on the SUPPORT of the flows (x.nonzero_keys(), x.any()) may be memoised conditionally."""
+    from ..cfg import CFG
+    f = vle.methods.get('_setup')
+    if f is None:
+        raise AnalysisError('VLE._setup not found')
+    fn = f.node
+    imols = {'self._imol'}
+    for n in walk_no_nested(fn):
+        if isinstance(n, ast.Assign) and src(n.value) == 'self._imol':
+            imols |= {t.id for t in n.targets if isinstance(t, ast.Name)}
+    tainted = set()
+
+    def is_tainted(e):
+        if isinstance(e, ast.Call) and isinstance(e.func, ast.Attribute) and e.func.attr in SUPPORT_ONLY:
+            return False
+        if isinstance(e, ast.Subscript) and src(e.value) in imols:
+            return True
+        if isinstance(e, ast.Call) and src(e.func) == 'tuple' and e.args and src(e.args[0]) in imols:
+            return True
+        if isinstance(e, ast.Name):
+            return e.id in tainted
+        if isinstance(e, ast.Compare):
+            return False          # a truth value, not an amount
+        return any(is_tainted(c) for c in ast.iter_child_nodes(e))
+    changed = True
+    while changed:
+        changed = False
+        for n in walk_no_nested(fn):
+            tg = []
+            if isinstance(n, ast.Assign) and is_tainted(n.value):
+                tg = n.targets
+            elif isinstance(n, ast.AugAssign) and is_tainted(n.value):
+                tg = [n.target]
+            for t in tg:
+                for x in ([t] if isinstance(t, ast.Name) else (t.elts if isinstance(t, ast.Tuple) else [])):
+                    if isinstance(x, ast.Name) and x.id not in tainted:
+                        tainted.add(x.id)
+                        changed = True
+    cfg = CFG(fn)
+    n_sites = 0
+    for n in walk_no_nested(fn):
+        if not isinstance(n, ast.Assign) or not is_tainted(n.value):
+            continue
+        fields = [src(t) for t in n.targets if isinstance(t, ast.Attribute) and src(t.value) == 'self']
+        if not fields:
+            continue
+        node = cfg.node_of(n)
+        okk, wit = cfg.must_pass(cfg.entry, lambda nd: nd is node)
+        for fld in fields:
+            n_sites += 1
+            if okk:
+                rule.ok('VLE._setup', '%s (computed from this call\'s flows) is stored on every normal path' % fld, f, n)
+            else:
+                rule.fail('VLE._setup', 'stale-per-call-%s' % fld.split('.')[-1],
+                          '%s is computed from this call\'s flows but stored only on some paths: on the others the residual functions keep the value of the '
+                          'previous call (skipped via %s)' % (fld, ' -> '.join('L%d' % x.lineno for x in (wit or [])[-8:] if x.lineno)), f, n)
+    ctx.anchor(n_sites >= 8, 'VLE._setup: expected >= 8 flow-derived fields, found %d' % n_sites)
 
 
 def dispatch(ctx, d2, vle):
